@@ -386,6 +386,13 @@ def rule_leader_and_lock(ctx: Ctx) -> None:
                     ok = rest_ok or (bool(before) and not always_before(ctx, m, lambda x: x in before, lambda x: x is node))
                 ctx.ob("C12-9", "G1", m, st, ok, "the reported leader changes only together with a strictly larger term (or is the leader already known for the current term)")
     need(n >= 3, f"C12-9: only {n} leader writes found")
+    # terms must be *agreed* numbers: a node that adopts a leader announced by a message takes the announced term with it
+    hm = c.methods["_handle_election_message"]
+    tw = [st for st in walk_stmts(hm.node.body) if isinstance(st, (ast.Assign, ast.AugAssign)) and path_of(st.targets[0] if isinstance(st, ast.Assign) else st.target) == "self._current_term"]
+    need(tw, "C12-9: _handle_election_message no longer writes the term")
+    for st in tw:
+        ok = isinstance(st, ast.Assign) and any(isinstance(x, ast.Constant) and x.value == "term" for x in ast.walk(st.value)) and any(path_of(x) in ("metadata", "payload", "result") for x in ast.walk(st.value))
+        ctx.ob("C12-9", "G7", hm, st, ok, "a node that adopts a leader announced by an election message adopts the announced term (terms are agreed numbers, not per-node counters — otherwise two nodes hold the same term number with different leaders)")
     lock = prog.cls(DL, "DistributedLock")
     writes = []
     for m in lock.methods.values():
@@ -408,6 +415,27 @@ def rule_leader_and_lock(ctx: Ctx) -> None:
     ctx.floor("C12-10", 3)
 
 
+def rule_leader_keeps_leading(ctx: Ctx) -> None:
+    """An established leader's own heartbeat tick re-arms the heartbeat and never reaches the branch that clears `_is_leader`."""
+    prog = ctx.prog
+    for rel, cname in ((MP, "MultiPaxosNode"), (FP, "FlexiblePaxosNode")):
+        hh = prog.func(rel, f"{cname}._handle_heartbeat")
+        ff = ctx.flow(hh)
+        demote = [st for st in walk_stmts(hh.node.body) if isinstance(st, ast.Assign) and path_of(st.targets[0]) == "self._is_leader" and isinstance(st.value, ast.Constant) and st.value.value is False]
+        need(demote, f"C12-12: {cname}._handle_heartbeat has no demotion site")
+        for st in demote:
+            ok = ff.holds_at(node_of(ff.cfg, st), Fact("falsy", "metadata.get('self_heartbeat')"))
+            ctx.ob("C12-12", "G1", hh, st, ok, f"{cname}: a heartbeat demotes the node only if it comes from another node — the leader's own tick (self_heartbeat) never clears _is_leader")
+        rearm = [c for c in calls_in(hh.node) if path_of(c.func) == "self._send_heartbeat"]
+        ok = len(rearm) == 1 and ff.holds_at(node_of(ff.cfg, rearm[0]), Fact("truthy", "metadata.get('self_heartbeat')")) and ff.holds_at(node_of(ff.cfg, rearm[0]), Fact("truthy", "self._is_leader"))
+        ctx.ob("C12-12", "G2", hh, rearm[0] if rearm else None, ok, f"{cname}: while it leads, the node's own tick sends the next round of heartbeats and re-arms itself")
+        sh = prog.func(rel, f"{cname}._send_heartbeat")
+        tick = [c for c in calls_in(sh.node) if path_of(c.func) == "Event" and any(k.arg == "target" and path_of(k.value) == "self" for k in c.keywords)]
+        ok = len(tick) == 1 and "'self_heartbeat': True" in unparse(tick[0])
+        ctx.ob("C12-12", "G8", sh, tick[0] if tick else None, ok, f"{cname}._send_heartbeat marks its self-scheduled tick with self_heartbeat=True (the flag the handler tests)")
+    ctx.floor("C12-12", 6)
+
+
 def rule_schema(ctx: Ctx) -> None:
     prog = ctx.prog
     for rel, cname in ((PAX, "PaxosNode"), (MP, "MultiPaxosNode"), (FP, "FlexiblePaxosNode")):
@@ -425,10 +453,12 @@ def run(ctx: Ctx) -> None:
     ctx.guarded(rule_flexible)
     ctx.guarded(rule_dead_promise_info)
     ctx.guarded(rule_leader_and_lock)
+    ctx.guarded(rule_leader_keeps_leading)
     ctx.guarded(rule_schema)
 
 
 MUTANTS = [
+    ("multipaxos-own-tick-demotes", MP, "        if metadata.get(\"self_heartbeat\"):\n            if not self._is_leader:\n                return None\n            return self._send_heartbeat()\n\n        ballot = Ballot(", "        ballot = Ballot(", "C12-12"),
     ("self-count-without-self-accept", PAX, "            self._accepted_value = chosen_value\n            self._phase2_responses[ballot_number] = 1  # count self", "            self._accepted_value = chosen_value\n        self._phase2_responses[ballot_number] = 1  # count self", "C12-6"),
     ("accept-does-not-raise-promise", PAX, "        # Accept\n        self._promised_ballot = ballot\n        self._accepted_ballot = ballot", "        # Accept\n        self._accepted_ballot = ballot", "C12-3"),
     ("promise-ballot-halves-mixed", PAX, "            accepted_ballot = (metadata[\"accepted_ballot_number\"], metadata[\"accepted_ballot_node\"])", "            accepted_ballot = (metadata[\"accepted_ballot_number\"], metadata[\"ballot_node\"])", "C12-5"),
